@@ -1,4 +1,4 @@
-CONSTANT Cfg <- Cfg_ts2
+CONSTANT CfgSet <- S_ts2
 INIT MCInit
 NEXT Next
 CHECK_DEADLOCK FALSE
